@@ -256,7 +256,17 @@ impl<'a, 'b> VP<'a, 'b> {
                     self.out.push('[');
                     self.open_filter(depth + 2);
                     self.out.push_str(name);
-                    self.out.push_str(" |");
+                    // a line break inside the filter, between the capture name and its `|`
+                    if self.u.chance(self.p_layout, 8) {
+                        self.out.push('\n');
+                        self.ind(depth + 2);
+                        *self.used.entry("break-in-filter").or_default() += 1;
+                    } else if self.u.chance(self.p_layout, 8) {
+                        // or no blank at all
+                    } else {
+                        self.out.push(' ');
+                    }
+                    self.out.push('|');
                     self.open_filter(depth + 2);
                     self.cnf(cnf, depth + 2, true);
                     self.close_filter(depth + 1);
